@@ -681,7 +681,7 @@ func writeEvidence(spec *propSpec, tier string, seed uint64, a *agg, wall float6
 
 var assumptions = map[string][]string{
 	"cachesim": {
-		"preemption happens only at the yield sites of the verif hooks (before every outermost lock, right after a task has released its last lock, around every channel hand-off); code between two sites is atomic in simulation",
+		"preemption happens at the hand-placed yield sites of the verif hooks (before every outermost lock, right after a task has released its last lock, around every channel hand-off) and at the sites cmd/autoyield inserts into a scratch copy of the tree (before every mutex and atomic operation of the root package, never while a lock is held; see the notes for whether they were inserted in this run); code between two sites is atomic in simulation",
 		"built with go1.26.8 (testing/synctest), the repository's own toolchain is 1.25.0",
 		"the sync.Pool inside ringBuffer is replaced by a simulator-owned stripe set; the Go scheduler, select choice, wall clock and map iteration order are simulator decisions",
 		"sampling, not enumeration: a clean batch is evidence, not proof",
@@ -696,7 +696,7 @@ var assumptions = map[string][]string{
 var realVsStub = map[string]map[string]string{
 	"cachesim": {
 		"cache.go, store.go, policy.go, ttl.go, ring.go (stripe logic), sketch.go, z/bbloom.go, z/z.go": "real",
-		"goroutine scheduling":               "stub: seeded scheduler releasing one goroutine at a time at yield sites",
+		"goroutine scheduling":               "stub: seeded scheduler releasing one goroutine at a time at yield sites (hand-placed behind the verif tag, plus mechanically inserted ones in a scratch copy of the tree)",
 		"select in the two background loops": "stub: one ready case chosen by the simulator",
 		"wall clock / ticker":                "stub: testing/synctest fake clock advanced by the simulator; the ticker itself is real",
 		"map iteration order (fillSample, ttl cleanup, lockedMap.Clear, IterValues)": "stub: order chosen by the simulator",
